@@ -112,6 +112,10 @@ def gen_statement(rng, cat, allow_notaction=True):
     elif r < 0.97:
         st["action"] = gen_element(rng, cat)
         st["notaction"] = gen_element(rng, cat)
+    if st["action"] is not None and st["notaction"] is None and rng.random() < 0.12:
+        # an EMPTY NotAction next to an Action: present, excludes nothing -- the statement allows the complement of nothing as well,
+        # i.e. everything (seeded change C09-r7Em1 keyed a memo by (actions, not_actions) and read "absent" as "empty")
+        st["notaction"] = []
     if rng.random() < 0.3:
         # a conditional statement, other principals / resources: expansion looks at Action / NotAction (and, for the allowed
         # actions, at the Effect) only (audit experiment 1: "skip Allow statements that carry a Condition" went unnoticed)
@@ -507,6 +511,14 @@ def cases(rng, tier, shard, nshards):
                 # document allows the union of both (seeded change C09-r5m1 skipped a statement whose flattened action list it had seen)
                 ps = gen_patterns(rng, cat) or [gen_pattern(rng, cat)]
                 two = [{"effect": "Allow", "action": ps, "notaction": None}, {"effect": "Allow", "action": None, "notaction": ps}]
+                if rng.random() < 0.5:
+                    two.reverse()
+                yield ALLOWED, {"statements": two, "single": False}
+                yield IAM, {"statements": two, "single": False}
+            if k % 20 == 6 and rng.random() < 0.7:
+                # two statements with the SAME Action text, one of them with an empty NotAction beside it
+                ps = [small_pattern_of(rng, cat)]
+                two = [{"effect": "Allow", "action": list(ps), "notaction": None}, {"effect": "Allow", "action": list(ps), "notaction": []}]
                 if rng.random() < 0.5:
                     two.reverse()
                 yield ALLOWED, {"statements": two, "single": False}
